@@ -10,16 +10,22 @@ package main
 
 import (
 	"encoding/json"
+	"fmt"
 	"go/ast"
+	"go/token"
 	"go/types"
 	"os"
 	"path/filepath"
+	"regexp"
 	"sort"
 )
 
 type localEntry struct {
 	Name string `json:"n"`
 	Type string `json:"t"`
+	// Def: how the local is defined - the text of its initialiser (or of the ranged expression)
+	// with the names of the function's locals blanked, so that it survives renames
+	Def string `json:"d,omitempty"`
 }
 
 func localsOf(t *Target) []localEntry {
@@ -37,16 +43,64 @@ func localsOf(t *Target) []localEntry {
 		e   localEntry
 	}
 	var l []pv
+	defs := map[*ast.Ident]ast.Expr{}
+	kind := map[*ast.Ident]string{}
+	ast.Inspect(body, func(n ast.Node) bool {
+		switch x := n.(type) {
+		case *ast.AssignStmt:
+			if x.Tok == token.DEFINE {
+				for i, lhs := range x.Lhs {
+					if id, ok := lhs.(*ast.Ident); ok {
+						if len(x.Rhs) == len(x.Lhs) {
+							defs[id] = x.Rhs[i]
+						} else if len(x.Rhs) == 1 {
+							defs[id] = x.Rhs[0]
+							kind[id] = fmt.Sprintf("#%d ", i)
+						}
+					}
+				}
+			}
+		case *ast.ValueSpec:
+			for i, id := range x.Names {
+				if len(x.Values) == len(x.Names) {
+					defs[id] = x.Values[i]
+				} else if len(x.Values) == 1 {
+					defs[id] = x.Values[0]
+					kind[id] = fmt.Sprintf("#%d ", i)
+				}
+			}
+		case *ast.RangeStmt:
+			if id, ok := x.Key.(*ast.Ident); ok && x.Tok == token.DEFINE {
+				defs[id] = x.X
+				kind[id] = "range-key "
+			}
+			if id, ok := x.Value.(*ast.Ident); ok && x.Tok == token.DEFINE {
+				defs[id] = x.X
+				kind[id] = "range-value "
+			}
+		}
+		return true
+	})
+	names := map[string]bool{}
 	ast.Inspect(body, func(n ast.Node) bool {
 		id, ok := n.(*ast.Ident)
 		if !ok || id.Name == "_" {
 			return true
 		}
 		if o, ok := t.pkg.TypesInfo.Defs[id].(*types.Var); ok && o != nil && !o.IsField() {
-			l = append(l, pv{int(id.Pos()), localEntry{id.Name, types.TypeString(o.Type(), func(p *types.Package) string { return p.Name() })}})
+			names[id.Name] = true
+			l = append(l, pv{int(id.Pos()), localEntry{Name: id.Name, Type: types.TypeString(o.Type(), func(p *types.Package) string { return p.Name() })}})
+			if e, ok := defs[id]; ok {
+				l[len(l)-1].e.Def = kind[id] + nodeStr(e)
+			}
 		}
 		return true
 	})
+	for i := range l {
+		if l[i].e.Def != "" {
+			l[i].e.Def = blankNames(l[i].e.Def, names)
+		}
+	}
 	// implicit objects of type switches (`switch v := x.(type)`) are not renamable one by one; skipped
 	sort.Slice(l, func(i, j int) bool { return l[i].pos < l[j].pos })
 	var out []localEntry
@@ -117,6 +171,37 @@ func renameMap(base, cur []localEntry) map[string]string {
 	}
 	out := map[string]string{}
 	bad := map[string]bool{}
+	taken := map[string]bool{}
+	// first pass: a vanished local and an appeared local of the same type that are defined by the
+	// same expression (names of locals blanked) are the same local, wherever they stand
+	for _, b := range base {
+		if inCur[b.Name] || b.Def == "" {
+			continue
+		}
+		if _, done := out[b.Name]; done {
+			continue
+		}
+		var cand []string
+		seen := map[string]bool{}
+		for _, c := range cur {
+			if !inBase[c.Name] && !taken[c.Name] && !seen[c.Name] && c.Type == b.Type && c.Def == b.Def {
+				cand = append(cand, c.Name)
+				seen[c.Name] = true
+			}
+		}
+		nb := 0
+		seenB := map[string]bool{}
+		for _, b2 := range base {
+			if !inCur[b2.Name] && !seenB[b2.Name] && b2.Type == b.Type && b2.Def == b.Def {
+				nb++
+				seenB[b2.Name] = true
+			}
+		}
+		if len(cand) == 1 && nb == 1 {
+			out[b.Name] = cand[0]
+			taken[cand[0]] = true
+		}
+	}
 	flush := func(bs, cs []localEntry) {
 		// within one gap: vanished entries of base against appeared entries of cur, matched in
 		// order per type
@@ -125,8 +210,11 @@ func renameMap(base, cur []localEntry) map[string]string {
 			if inCur[b.Name] {
 				continue
 			}
+			if _, done := out[b.Name]; done && !bad[b.Name] {
+				continue
+			}
 			for k, c := range cs {
-				if used[k] || inBase[c.Name] || c.Type != b.Type {
+				if used[k] || inBase[c.Name] || taken[c.Name] || c.Type != b.Type {
 					continue
 				}
 				used[k] = true
@@ -189,4 +277,16 @@ func loadRangeKeys(verif string) map[string]map[int]string {
 func saveRangeKeys(verif string, m map[string]map[int]string) {
 	b, _ := json.MarshalIndent(m, "", " ")
 	os.WriteFile(rangeKeysFile(verif), append(b, '\n'), 0o644)
+}
+
+var identRe = regexp.MustCompile(`[A-Za-z_][A-Za-z0-9_]*`)
+
+// blankNames replaces every identifier of s that names a local of the function by "_".
+func blankNames(s string, names map[string]bool) string {
+	return identRe.ReplaceAllStringFunc(s, func(w string) string {
+		if names[w] {
+			return "_"
+		}
+		return w
+	})
 }
